@@ -87,6 +87,15 @@ func TestSweep(t *testing.T) {
 			Oracle.One(t, env, rec, "sweep", &Case{S: pr[0], B: pr[1], C: 2, Kr: 3, A: 1, Bf: 3, Fix: 1, Ops: sops})
 		}
 	}
+	// channel counts around 65536 (a count narrowed to 16 bits would wrap)
+	for _, C := range []int{65535, 65536, 65537, 65538} {
+		lens := make([]int, C)
+		for ch := range lens {
+			lens[ch] = 2 - ch%2
+		}
+		Oracle.One(t, env, rec, "sweep", &Case{S: "int16", B: "int16", C: C, Kr: 3, A: 0, Bf: 2, Ops: []Op{{Kind: "write", N: 2*C - 1, Vals: vals}, {Kind: "read", N: 2 * C}}})
+		Oracle.One(t, env, rec, "sweep", &Case{S: "float32", B: "float64", C: C, Kr: 3, A: 1, Bf: 3, Ops: []Op{{Kind: "writeStriped", Lens: lens, Vals: vals}, {Kind: "readStriped", Lens: lens}}})
+	}
 	// many channels (beyond 64) with uneven striped slices and interleaved forms
 	for _, pr := range [][2]string{{"float64", "float64"}, {"int16", "float32"}, {"uint8", "int64"}} {
 		for _, C := range []int{63, 64, 65, 66, 100, 129} {
